@@ -33,6 +33,8 @@ Spec == Init /\ [][Next]_tid
 ob == Obs[tid]
 (* the message, line and column could be produced *)
 FormatOK == ob.fmt = "ok"
+(* the error carries a position at all *)
+HasPosition == ob.idx >= 0
 (* the position is one of the error's own source: the template that holds the construct *)
 OwnSource == ob.src = ob.exp
 Inside == ob.idx >= 0 /\ ob.idx <= Len(ob.src)
@@ -48,7 +50,7 @@ NotBeforeConstruct == ob.idx >= ob.lo
 
 Verdict ==
   LET nl == Newlines(ob.src) lineok == ob.line = LineAt(nl, ob.idx) colok == ob.col = ColAt(nl, ob.idx) IN
-  IF ~FormatOK THEN "FormatOK" ELSE IF ~OwnSource THEN "OwnSource" ELSE IF ~Inside THEN "Inside"
+  IF ~FormatOK THEN "FormatOK" ELSE IF ~HasPosition THEN "HasPosition" ELSE IF ~OwnSource THEN "OwnSource" ELSE IF ~Inside THEN "Inside"
   ELSE IF ~lineok THEN "LineOK" ELSE IF ~colok THEN "ColOK" ELSE IF ~MessageShowsThem THEN "MessageShowsThem"
   ELSE IF ~Verbatim THEN "Verbatim" ELSE IF ~NotBeforeConstruct THEN "NotBeforeConstruct" ELSE "ok"
 Judge == PrintT(<<"JUDGE", tid, Verdict>>)
